@@ -46,3 +46,21 @@ DERIVATIVE_NEEDED = [
   ("derivative._qderiv_actuator_passive_vel", "forward._actuator_force", []),
 ]
 IMPLICIT_INTEGRATORS = ["IMPLICIT", "IMPLICITFAST"]
+
+
+# R-FLAGS.6: which option flags each stage module consults on the confirmed tree (MuJoCo's flags are stage-scoped: mj_passive
+# looks at SPRING / DAMPER / GRAVITY (+ CONTACT for adhesion) and not at ACTUATION, the constraint builder at its row-class
+# flags, ...). A module that starts testing a further flag changes what that flag does.
+MODULE_FLAGS = {
+  "collision_convex": ["DisableBit.MULTICCD"],
+  "collision_driver": ["DisableBit.CONSTRAINT", "DisableBit.CONTACT", "DisableBit.NATIVECCD", "EnableBit.SLEEP"],
+  "constraint": ["DisableBit.CONSTRAINT", "DisableBit.CONTACT", "DisableBit.EQUALITY", "DisableBit.FRICTIONLOSS", "DisableBit.LIMIT", "DisableBit.REFSAFE"],
+  "derivative": ["DisableBit.ACTUATION", "DisableBit.DAMPER", "DisableBit.SPRING"],
+  "forward": ["DisableBit.ACTUATION", "DisableBit.CLAMPCTRL", "DisableBit.DAMPER", "DisableBit.EULERDAMP", "DisableBit.GRAVITY", "DisableBit.ISLAND", "DisableBit.SPRING", "EnableBit.ENERGY", "EnableBit.SLEEP"],
+  "inverse": ["DisableBit.DAMPER", "DisableBit.EULERDAMP", "EnableBit.INVDISCRETE"],
+  "io": ["DisableBit.FILTERPARENT", "DisableBit.MULTICCD", "DisableBit.NATIVECCD", "EnableBit.SLEEP"],
+  "passive": ["DisableBit.CONTACT", "DisableBit.DAMPER", "DisableBit.GRAVITY", "DisableBit.SPRING"],
+  "sensor": ["DisableBit.GRAVITY", "DisableBit.SENSOR", "DisableBit.SPRING"],
+  "smooth": ["DisableBit.GRAVITY"],
+  "solver": ["DisableBit.ISLAND", "DisableBit.WARMSTART", "EnableBit.SLEEP"],
+}
